@@ -96,7 +96,12 @@ def build(rng, case):
             extra = ' formalCharge="%d"' % rng.integers(-2, 3)
         if rng.integers(6) == 0:
             extra += ' isotope="13"'
-        lines.append('  <atom id="%s" elementType="%s"%s x3="%s" y3="%s" z3="%s"/>' % (ids[i], els[i], extra, coords[i][0], coords[i][1], coords[i][2]))
+        attrs = ['id="%s"' % ids[i], 'elementType="%s"' % els[i]] + extra.split() + ['x3="%s"' % coords[i][0], 'y3="%s"' % coords[i][1], 'z3="%s"' % coords[i][2]]
+        if case["s"] % 3 == 1:
+            # the attributes of an element carry no order: written as another serializer (or a hand edit) may leave them
+            attrs = [attrs[k] for k in np.random.default_rng([case["s"], i]).permutation(len(attrs))]
+            case["_attribute_order"] = True
+        lines.append('  <atom %s/>' % " ".join(attrs))
     lines.append(" </atomArray>")
     if case["bonds"] != "no_bondarray":
         lines.append(" <bondArray>")
@@ -295,6 +300,8 @@ def run_case(case, ctx):
     st.count("documents")
     st.seen("id_scheme", case["ids"])
     st.seen("document_wrapper", case.get("_wrap"))
+    if case.get("_attribute_order"):
+        st.count("documents_with_atom_attributes_in_another_order")
     if case.get("_parts") and bonds:
         st.count("documents_with_two_atom_arrays_and_bonds")
     if bonds:
@@ -313,6 +320,8 @@ def requirements(stats, tier):
     need = []
     if stats.get("loads_checked") < (1500 if tier == "quick" else 500000):
         need.append("too few loads observed: %d" % stats.get("loads_checked"))
+    if stats.get("documents_with_atom_attributes_in_another_order") < (50 if tier == "quick" else 5000):
+        need.append("documents whose atom attributes are written in another order: %d" % stats.get("documents_with_atom_attributes_in_another_order"))
     if stats.nseen("document_wrapper_with_bonds") < 5:
         need.append("document wrappers observed with bonds: %s" % sorted(stats.sets.get("document_wrapper_with_bonds", [])))
     if stats.get("documents_with_two_atom_arrays_and_bonds") < 10:
